@@ -137,6 +137,8 @@ pub fn run_c06(ctx: &mut Ctx, _known: &Known) {
     ctx.exhaustive = true;
     c06_same_field(ctx);
     c06_rows_same_field(ctx);
+    c06_key_quantifiers(ctx);
+    c06_mixed_groups(ctx);
     let masks = vec![0u64, 15];
     for k in 1..=4usize {
         let vs = vectors(k);
@@ -416,6 +418,104 @@ fn c06_rows_same_field(ctx: &mut Ctx) {
                             break;
                         }
                     }
+                }
+            }
+        }
+    }
+}
+
+/// Quantified KEYS over lists of one kind (all regexes of one case class, all substring needles, …):
+/// `of(f, n)` holds iff at least n members hold, `all(f)` iff all do — for every truth vector of
+/// the members, every n from 0 to one more than the list is long.
+fn c06_key_quantifiers(ctx: &mut Ctx) {
+    let hit = ["a", "b", "c", "bc"];
+    let miss = ["x", "y", "z", "q"];
+    let kinds: Vec<(&str, Box<dyn Fn(&str) -> String>)> = vec![
+        ("regex", Box::new(|w: &str| format!("?{}", w))),
+        ("ci regex", Box::new(|w: &str| format!("i?{}", w.to_uppercase()))),
+        ("contains", Box::new(|w: &str| format!("*{}*", w))),
+        ("ci contains", Box::new(|w: &str| format!("i*{}*", w.to_uppercase()))),
+        ("anchored regex", Box::new(|w: &str| format!("?^.*{}", w))),
+    ];
+    let docs = vec![map1("f", ys("abc")), map1("f", Yaml::Sequence(vec![ys("mm"), ys("abc")])), map1("g", ys("abc"))];
+    for (kname, mk) in &kinds {
+        for k in 2..=4usize {
+            for bits in 0..(1u32 << k) {
+                let v: Vec<Tri> = (0..k).map(|i| if bits & (1 << i) != 0 { Tri::T } else { Tri::F }).collect();
+                let members: Vec<Yaml> = (0..k).map(|i| ys(&mk(if v[i] == Tri::T { hit[i] } else { miss[i] }))).collect();
+                let mut keys: Vec<(String, Tri)> = vec![("all(f)".to_string(), t_and(&v)), ("f".to_string(), t_or(&v))];
+                for n in 0..=k + 1 {
+                    keys.push((format!("of(f, {})", n), t_of(n, &v)));
+                }
+                for (key, want) in keys {
+                    let c = case(vec![("A".into(), map1(&key, Yaml::Sequence(members.clone()))), ("condition".into(), ys("A"))], docs.clone(), vec![0, 15]);
+                    let (ex, parsed) = run_rule_case(ctx, &c, false);
+                    let p = match parsed {
+                        Some(p) if p.load == "ok" => p,
+                        _ => continue,
+                    };
+                    ctx.nontrivial.insert(hash_str(&ex.line));
+                    for m in &p.masks {
+                        // string field, array holding the string: the members' truth; other field: never true
+                        let got: Vec<bool> = m.res.iter().map(|r| r.0 == "T").collect();
+                        let want_v = vec![want == Tri::T, want == Tri::T, key == "of(f, 0)" && false];
+                        if got[0] != want_v[0] || got[1] != want_v[1] || (got[2] && key != "of(f, 0)") {
+                            ctx.violation("oracle", &format!("`{}` over {} {} members with truth {:?} (mask {}): engine gives {:?} on (string, array holding it, absent field), the quantifier gives {}", key, k, kname, v, m.mask, got, want.name()), &ex, &rule_yaml(&c), true);
+                            break;
+                        }
+                    }
+                }
+            }
+        }
+    }
+}
+
+/// Parenthesised chains of one operator joined with a chain of the OTHER operator by either
+/// operator, and the same with identifiers that are groups themselves (a mapping is a
+/// conjunction, a sequence of mappings a disjunction): the truth tables, plain and optimised.
+fn c06_mixed_groups(ctx: &mut Ctx) {
+    let vs6 = vectors(6);
+    let docs6: Vec<Yaml> = vs6.iter().map(|v| doc_for(v)).collect();
+    let ids6: Vec<(String, Yaml)> = (0..6).map(|i| (format!("Q{}", i), map1(&format!("f{}", i), ys("x")))).collect();
+    let mut grouped: Vec<(String, Yaml)> = vec![
+        ("M".into(), mapn((0..3).map(|i| (format!("f{}", i), ys("x"))).collect())),
+        ("S".into(), Yaml::Sequence((3..6).map(|i| map1(&format!("f{}", i), ys("x"))).collect())),
+    ];
+    grouped.extend(ids6.iter().cloned());
+    let a3 = |v: &[Tri]| t_and(&v[0..3]);
+    let o3 = |v: &[Tri]| t_or(&v[3..6]);
+    let forms: Vec<(&str, Box<dyn Fn(&[Tri]) -> Tri>)> = vec![
+        ("(Q0 and Q1 and Q2) and (Q3 or Q4 or Q5)", Box::new(move |v| t_and(&[a3(v), o3(v)]))),
+        ("(Q3 or Q4 or Q5) and (Q0 and Q1 and Q2)", Box::new(move |v| t_and(&[o3(v), a3(v)]))),
+        ("(Q3 or Q4 or Q5) or (Q0 and Q1 and Q2)", Box::new(move |v| t_or(&[o3(v), a3(v)]))),
+        ("(Q0 and Q1 and Q2) or (Q3 or Q4 or Q5)", Box::new(move |v| t_or(&[a3(v), o3(v)]))),
+        ("not ((Q0 and Q1 and Q2) and (Q3 or Q4 or Q5))", Box::new(move |v| t_not(t_and(&[a3(v), o3(v)])))),
+        ("M and S", Box::new(move |v| t_and(&[a3(v), o3(v)]))),
+        ("S and M", Box::new(move |v| t_and(&[o3(v), a3(v)]))),
+        ("S or M", Box::new(move |v| t_or(&[o3(v), a3(v)]))),
+        ("M or S", Box::new(move |v| t_or(&[a3(v), o3(v)]))),
+        ("M and (Q3 or Q4 or Q5)", Box::new(move |v| t_and(&[a3(v), o3(v)]))),
+        ("S or (Q0 and Q1 and Q2)", Box::new(move |v| t_or(&[o3(v), a3(v)]))),
+        ("not (S or M)", Box::new(move |v| t_not(t_or(&[o3(v), a3(v)])))),
+    ];
+    for (cond, table) in forms {
+        let mut det = grouped.clone();
+        det.push(("condition".into(), ys(cond)));
+        let c = case(det, docs6.clone(), vec![0, 15, 2, 3]);
+        let (ex, parsed) = run_rule_case(ctx, &c, false);
+        let p = match parsed {
+            Some(p) if p.load == "ok" => p,
+            _ => continue,
+        };
+        ctx.nontrivial.insert(hash_str(cond));
+        'm: for m in &p.masks {
+            for (j, v) in vs6.iter().enumerate() {
+                let want = table(v);
+                let got = m.res[j].0.as_str();
+                let ok = if m.mask == 0 { got == want.name() } else { (got == "T") == (want == Tri::T) };
+                if !ok {
+                    ctx.violation("oracle", &format!("condition `{}` with operand results {:?} (mask {}): engine gives {}, truth table gives {}", cond, v, m.mask, got, want.name()), &ex, &rule_yaml(&c), true);
+                    break 'm;
                 }
             }
         }
@@ -789,6 +889,20 @@ pub fn run_c07(ctx: &mut Ctx, _known: &Known) {
             string_case(ctx, vec![p.to_string()], &r_docs, &r_hays, &masks);
             string_case(ctx, vec![p.to_string(), "zq".to_string()], &r_docs, &r_hays, &masks);
             string_case(ctx, vec![p.to_string(), "i?.*zq".to_string()], &r_docs, &r_hays, &masks);
+        }
+    }
+    // line breaks and other control characters are ordinary characters of the VALUE: `^` / `$` are
+    // the ends of the whole text, `.` is every character but `\n` — alone, in lists, optimised
+    {
+        let l_hays: Vec<String> = vec!["a\rb", "a\nb", "a\r\nb", "ab", "a.b", "x\nab", "ab\nx", "ab\n", "\nab", "a\u{2028}b", "a\u{85}b", "a\tb", "a\u{0}b", "AB\n", "a\r", "\ra"].into_iter().map(|s| s.to_string()).collect();
+        let l_docs: Vec<Yaml> = l_hays.iter().map(|h| map1("f", ys(h))).collect();
+        for p in ["?a.b", "?^ab$", "?^ab", "?ab$", "?a.+b", "?^a.*b$", "i?a.b", "i?^ab$", "?a\\sb", "?a[^x]b", "?^a", "?b$", "?(?m)^ab$", "?(?s)a.b", "?a$", "?^$"] {
+            string_case(ctx, vec![p.to_string()], &l_docs, &l_hays, &masks);
+            string_case(ctx, vec![p.to_string(), "?zq".to_string()], &l_docs, &l_hays, &masks);
+            string_case(ctx, vec![p.to_string(), "zq*".to_string()], &l_docs, &l_hays, &masks);
+        }
+        for p in ["ab", "ab*", "*ab", "*ab*", "a\nb", "*\n", "a\r*", "iAB*", "i*AB"] {
+            string_case(ctx, vec![p.to_string()], &l_docs, &l_hays, &masks);
         }
     }
     // lists of two (all pairs in thorough; a deterministic slice in quick), three and four
@@ -1844,6 +1958,40 @@ pub fn run_c10(ctx: &mut Ctx, _known: &Known) {
             }
         }
     }
+    // YAML documents may hold keys that are NOT strings (1:, true:, 2.5:, ~:): a path segment names
+    // a STRING key, never the text of another kind of key — in matches() and in validate()
+    {
+        let texts = [
+            "{a: {1: x}}", "{a: {'1': x}}", "{a: {1: y, '1': x}}", "{a: {1: x, '1': y}}", "{1: x}", "{'1': x}", "{a: {true: x}}", "{a: {'true': x}}",
+            "{a: {2.5: x}}", "{a: {'2': {'5': x}}}", "{a: {~: x}}", "{a: {'null': x, '~': x}}", "{a: {[1]: x}}", "{true: x, 1: x, 2.5: x, ~: x}", "{a: [{1: x}]}", "{a: {1: {b: x}}}", "{a: {'1': {b: x}}}",
+        ];
+        let docs: Vec<Yaml> = texts.iter().filter_map(|t| serde_yaml::from_str::<Yaml>(t).ok()).collect();
+        for key in ["a.1", "'1'", "a.true", "a.2.5", "a.null", "a.~", "'true'", "a.1.b", "a[0].1", "'2.5'"] {
+            let bare = key.trim_matches('\'');
+            let path: Vec<(String, Option<usize>)> = bare.split('.').map(|seg| match seg.strip_suffix("[0]") { Some(n) => (n.to_string(), Some(0)), None => (seg.to_string(), None) }).collect();
+            let text = format!("detection:\n  A:\n    {}: x\n  condition: A\ntrue_positives: []\ntrue_negatives: []\n", key);
+            let rule = match tau_engine::Rule::from_str(&text) { Ok(r) => r, Err(_) => continue };
+            for (d, t) in docs.iter().zip(texts.iter()) {
+                let m = match d.as_mapping() { Some(m) => m, None => continue };
+                let want = resolve(d, &path).map(|v| v == ys("x")).unwrap_or(false);
+                ctx.evaluations += 1;
+                ctx.nontrivial.insert(hash_str(&format!("nonstring{}{}", key, t)));
+                for mask in [0u64, 15] {
+                    let rl = if mask == 0 { rule.clone() } else { rule.clone().optimise(crate::implside::opts(mask)) };
+                    let got = rl.matches(m);
+                    // the same document as an example of the rule
+                    let mut as_example = rl.clone();
+                    if want { as_example.true_positives.push(d.clone()); } else { as_example.true_negatives.push(d.clone()); }
+                    let valid = as_example.validate().is_ok();
+                    if got != want || !valid {
+                        let dummy = ctx.exchange("tok s:");
+                        ctx.violation("oracle", &format!("rule `{}: x` on the YAML document {} (mask {}): matches() = {}, validate() with it as an example {}; the string-keyed path {} x", key, t, mask, got, if valid { "passes" } else { "fails" }, if want { "holds" } else { "does not hold" }), &dummy, &text, true);
+                        break;
+                    }
+                }
+            }
+        }
+    }
     // WIDE matrices: an or-group over more than 128 distinct paths (one of them used twice, so that
     // the matrix pass builds a table); a document is matched through the column of ITS field
     for n in [129usize, 150, 200, 260] {
@@ -2012,6 +2160,64 @@ pub fn run_c10(ctx: &mut Ctx, _known: &Known) {
                     if (m.res[j].0 == "T") != want {
                         ctx.violation("oracle", &format!("`{}` (mask {}): document {} gives {} but 'some element has x = 1' and 'some element has y = 2'{} is {}", cond, m.mask, serde_yaml::to_string(d).unwrap_or_default().replace('\n', " "), m.res[j].0, if cond.contains('C') { " and k = 1" } else { "" }, want), &ex, &ry, true);
                         break;
+                    }
+                }
+            }
+        }
+    }
+    // the same blocks inside a DISJUNCTION with other blocks on that field: a merged "every block
+    // holds for some element" group must not be folded into the per-field "some block holds" group
+    {
+        let el = |kvs: Vec<(&str, u64)>| -> Yaml { mapn(kvs.into_iter().map(|(k, v)| (k.to_string(), Yaml::Number(v.into()))).collect()) };
+        let arrays: Vec<Vec<Yaml>> = vec![
+            vec![el(vec![("x", 1)]), el(vec![("y", 2)]), el(vec![("z", 3)])], vec![el(vec![("x", 1), ("y", 2), ("z", 3)])], vec![el(vec![("x", 1)]), el(vec![("y", 2)])],
+            vec![el(vec![("x", 2)])], vec![el(vec![("x", 1), ("y", 2)]), el(vec![("z", 3)])], vec![el(vec![("z", 3)])], vec![el(vec![("x", 1)]), el(vec![("x", 2)])], vec![],
+        ];
+        let mut docs4: Vec<Yaml> = vec![];
+        for a in &arrays {
+            docs4.push(map1("oa", Yaml::Sequence(a.clone())));
+            docs4.push(mapn(vec![("k".into(), Yaml::Number(1u64.into())), ("oa".into(), Yaml::Sequence(a.clone()))]));
+        }
+        docs4.push(map1("oa", el(vec![("x", 1), ("y", 2), ("z", 3)])));
+        docs4.push(map1("k", Yaml::Number(1u64.into())));
+        let has = |d: &Yaml, key: &str, val: u64| -> bool {
+            match d.as_mapping().and_then(|m| m.get(ys("oa"))) {
+                Some(Yaml::Sequence(xs)) => xs.iter().any(|e| e.as_mapping().and_then(|m| m.get(ys(key))).and_then(|v| v.as_u64()) == Some(val)),
+                Some(Yaml::Mapping(m)) => m.get(ys(key)).and_then(|v| v.as_u64()) == Some(val),
+                _ => false,
+            }
+        };
+        let kk = |d: &Yaml| d.as_mapping().and_then(|m| m.get(ys("k"))).and_then(|v| v.as_u64()) == Some(1);
+        let conds: Vec<(&str, Box<dyn Fn(bool, bool, bool, bool, bool) -> bool>)> = vec![
+            ("(A and B and D) or E or C", Box::new(|a, b, d, e, c| (a && b && d) || e || c)),
+            ("E or (A and B and D) or C", Box::new(|a, b, d, e, c| e || (a && b && d) || c)),
+            ("(A and B and D) or E", Box::new(|a, b, d, e, _c| (a && b && d) || e)),
+            ("C or E or (A and B and D)", Box::new(|a, b, d, e, c| c || e || (a && b && d))),
+            ("(A and B and D) or (E and C) or (D and C)", Box::new(|a, b, d, e, c| (a && b && d) || (e && c) || (d && c))),
+        ];
+        for (cond, table) in conds {
+            let det = vec![
+                ("A".to_string(), map1("oa", map1("x", Yaml::Number(1u64.into())))),
+                ("B".to_string(), map1("oa", map1("y", Yaml::Number(2u64.into())))),
+                ("D".to_string(), map1("oa", map1("z", Yaml::Number(3u64.into())))),
+                ("E".to_string(), map1("oa", map1("x", Yaml::Number(2u64.into())))),
+                ("C".to_string(), map1("k", Yaml::Number(1u64.into()))),
+                ("condition".to_string(), ys(cond)),
+            ];
+            let cs = case(det, docs4.clone(), vec![0, 2, 3, 15]);
+            let (ex, parsed) = run_rule_case(ctx, &cs, false);
+            let ry = rule_yaml(&cs);
+            let p = match parsed {
+                Some(p) if p.load == "ok" => p,
+                _ => continue,
+            };
+            'mm: for m in &p.masks {
+                for (j, d) in docs4.iter().enumerate() {
+                    let want = table(has(d, "x", 1), has(d, "y", 2), has(d, "z", 3), has(d, "x", 2), kk(d));
+                    ctx.nontrivial.insert(hash_str(&format!("nestedor{}{}", cond, j)));
+                    if (m.res[j].0 == "T") != want {
+                        ctx.violation("oracle", &format!("`{}` over blocks on one array field (mask {}): document {} gives {}, expected {}", cond, m.mask, serde_yaml::to_string(d).unwrap_or_default().replace('\n', " "), m.res[j].0, want), &ex, &ry, true);
+                        break 'mm;
                     }
                 }
             }
